@@ -593,8 +593,16 @@ class Verifier(Exec):
             # derived ghost fields of the receiver hold their defining value on entry (they were
             # refreshed at the exit of whatever produced this state): unfolds e.g. $wf[self]
             for fld, txt in (con.ghost.get("derive") or {}).items():
-                v = self.sp(self.spec_expr(txt), st, dict(st.env), ctx0)
-                z = v.z if v.kind != "none" else z3.IntVal(0)
+                if txt.startswith("@and_ensures:"):
+                    import fnmatch as _fn
+                    pat, _, extra = txt[len("@and_ensures:"):].partition("|")
+                    parts = [self.spec(etxt, ctx0, state=st) for nm, etxt in con.ensures.items() if _fn.fnmatchcase(nm, pat)]
+                    if extra:
+                        parts.append(self.spec(extra, ctx0, state=st))
+                    z = z3.And(*parts) if parts else z3.BoolVal(True)
+                else:
+                    v = self.sp(self.spec_expr(txt), st, dict(st.env), ctx0)
+                    z = v.z if v.kind != "none" else z3.IntVal(0)
                 st.assume(self.hget(st, fld, st.env["self"].z) == z, tag="unfold:" + fld)
             pre.pc = list(st.pc)
             pre.heap = dict(st.heap)
@@ -625,11 +633,31 @@ class Verifier(Exec):
         ctx = SpecCtx(pre, s)
         # derived ghost fields of the receiver (summaries that are DEFINED by its state, e.g. the
         # first leaf of a node's subtree): refreshed from the final state at every exit
+        pre_goals = {}
         for fld, txt in (con.ghost.get("derive") or {}).items():
             env0 = dict(pre.env)
+            if txt.startswith("@and_ensures:"):
+                # a boolean summary DEFINED as the conjunction of some postcondition clauses: built from
+                # the very terms of those clauses, so that it follows from them propositionally
+                import fnmatch as _fn
+                pat, _, extra = txt[len("@and_ensures:"):].partition("|")
+                if o is None or o[0] == "return":
+                    env1 = dict(env0)
+                    env1["result"] = o[1] if o is not None else NONE
+                    parts = []
+                    for nm, etxt in con.ensures.items():
+                        if _fn.fnmatchcase(nm, pat):
+                            g_ = self.spec(etxt, ctx, env=env1, state=s)
+                            pre_goals[nm] = g_
+                            parts.append(g_)
+                    if extra:
+                        parts.append(self.spec(extra, ctx, env=env1, state=s))
+                    self.hset(s, fld, pre.env["self"].z, z3.And(*parts) if parts else z3.BoolVal(True))
+                continue
             v = self.sp(self.spec_expr(txt), s, env0, ctx)
             z = v.z if v.kind != "none" else z3.IntVal(0)
             self.hset(s, fld, pre.env["self"].z, z)
+        self._pre_goals = pre_goals
         if o is None:
             o = ("return", NONE)
         if o[0] == "return":
@@ -655,7 +683,9 @@ class Verifier(Exec):
                 if self.mode == "evict" and (" is old(" in txt or "fresh(" in txt):
                     continue      # object identity of the lists is not preserved across a reload
                 try:
-                    goal = self.spec(txt, ctx, state=s)
+                    goal = self._pre_goals.get(nm)
+                    if goal is None:
+                        goal = self.spec(txt, ctx, state=s)
                     detail = ""
                     if con.ghost.get("chain_post"):
                         # postcondition clauses are proved in order; an earlier one may be used for a later one
